@@ -18,6 +18,14 @@ again after its parent exists and must still evaluate to ITS OWN sub-expression;
 composites that share sub-objects (s = a + 1; t = s + b; u = s * 2; ...) and evaluates all of them afterwards;
 the leaves are re-applied at the end of the group.  Non-numeric operands come in several values per kind, including
 everything float() would coerce ("2", "1.5", b"4", numpy strings, Decimal, Fraction, objects with __float__).
+Operator FORMS: one tree in three has some binary nodes built with the augmented-assignment operators (operator.iadd / isub
+/ imul, i.e.  H += t, H -= t, H *= c  - Python uses __iadd__ etc. when defined and the plain operator otherwise); the paths
+of those nodes are part of the case ("iops"); the extended object is re-evaluated afterwards like every operand.
+Scalars include Python ints beyond 64 bits (10**20, -10**30, 2**63, ...) as factors and addends.
+System: the accepted composites of a group (distinct .name) are put into qucumber.observables.System and its
+statistics_from_samples / statistics(...) entry of every composite is compared with the one-pass statistics of the
+interpreter's values; two fixed groups use leaves that are DIFFERENT observables with the SAME .name
+(SigmaZ() / SigmaZ(absolute=True), SWAP([0]) / SWAP([1]), SigmaX() / SigmaX(absolute=True)).
 Correspondence: accept/reject verdict, apply values and statistics vs the extracted Coq model
 (ObsExpr.build/apply/statistics_from_samples); the .left/.right layout is informational only (histogram)."""
 import math, operator, time
@@ -31,13 +39,19 @@ RULE = ("groups = (state type in positive/complex/density-matrix, nv 2..4, rando
         "nested -, +, -, *), 'defect' (a linear tree with one injected obs*obs product or non-numeric operand "
         "str/None/list/complex/dict/tuple next to an observable-valued sibling), 'random' (undirected grammar); "
         "plus direct constructor calls. Scalars: int -5..5, floats, 0, negatives, bool, numpy.float64, user subclasses of "
-        "float and int, rarely 1e6 / -1e-6 / 10**6. Every accepted composite is applied (and statistics_from_samples taken) on "
+        "float and int, rarely 1e6 / -1e-6 / 10**6, 4% of the ints beyond 64 bits (10**20, -10**30, 2**63, -2**63-1, 2**64+1, 10**38; "
+        "15 fixed trees). Operator forms: infix / reflected, and in one tree in three 35% of the binary nodes as augmented "
+        "assignments += -= *= (34 fixed trees + 4 fixed shared-object programs such as H = -b; H -= 3*a; H += 1; H *= 2, always "
+        "first). Every accepted composite is applied (and statistics_from_samples taken) on "
         "the group's (state, batch), on a second state and/or a second batch of another length (1..nmax), and again after an "
         "in-place perturbation of the state's parameters; per group up to 2 (thorough 3) composites also go through "
         "Observable.statistics (num_chains 0/2/3/4, burn_in 0..2, steps 1..2, also initial_state=) and Observable.sample with "
         "recorded chains. Every operand object created while building a tree is re-applied after its parent was built (<= 8 per "
         "tree) and compared with its own sub-expression; stream 'dag': 3..5 definitions sharing earlier OBJECTS, all evaluated "
-        "right after being built and again after all were built; 4 fixed programs always run. Non-numeric operands: 11 kinds, "
+        "right after being built and again after all were built; 4 fixed programs always run. Per group the accepted composites "
+        "(<= 6, distinct names) also go through System(...).statistics_from_samples on two batches and (fixed groups and every "
+        "4th group) System.statistics on recorded chains; 2 fixed groups over leaves that share a .name but differ in value "
+        "(SigmaZ()/SigmaZ(absolute=True), SWAP([0])/SWAP([1]), SigmaX()/SigmaX(absolute=True)). Non-numeric operands: 11 kinds, "
         "1..9 values each (number-like str/bytes/bytearray/numpy strings, None, lists, complex, dict, tuple, Decimal, Fraction, "
         "objects with __float__/__index__). "
         "non-trivial := accepted tree with >= 2 operators, >= 1 scalar and >= 1 leaf whose values vary over the batch, "
@@ -52,9 +66,18 @@ ASSUMPTIONS = [
     "the concatenation is C13's theorem - here the composite's statistics() is compared with the one-pass summary of the "
     "interpreter's values on the recorded chains (num_chains != 1)",
     "'rejected' = any exception at construction; the exception class is recorded in the histogram only",
+    "H += t / H -= t / H *= c are the property's addition / subtraction / scalar multiplication written as augmented assignments; "
+    "the object that is extended must keep its own value afterwards (it may be shared by other composites), exactly as for the "
+    "plain operators",
+    "int scalars are generated up to 10**38 (float(c) finite); ints that do not fit a double (10**400) are not generated",
+    "composites put into one System have distinct .name (a System is a dictionary keyed by name); their LEAVES may share a name",
 ]
 
 OPS = {"add": operator.add, "sub": operator.sub, "mul": operator.mul}
+# the augmented-assignment forms  H += t / H -= t / H *= c  (Python calls __iadd__/__isub__/__imul__ when the class defines
+# them and falls back to the plain operator otherwise): the same three operations of the property, written in place
+IOPS = {"add": operator.iadd, "sub": operator.isub, "mul": operator.imul}
+BIG_INTS = [10 ** 20, -10 ** 30, 2 ** 63, -2 ** 63 - 1, 2 ** 64 + 1, -10 ** 19, 10 ** 38]     # Python ints beyond 64 bits
 SYM = {"add": "+", "sub": "-", "mul": "*"}
 JUNK_KINDS = ["str", "bytes", "npstr", "none", "list", "complex", "dict", "tuple", "decimal", "fraction", "floatable"]
 # decimal.Decimal / fractions.Fraction / objects with __float__ are number-LIKE objects that are not Python int/float
@@ -141,6 +164,8 @@ def rand_scalar(rng):
     t = str(rng.choice(["int", "float", "bool", "f64", "fsub", "isub"], p=[0.3, 0.25, 0.1, 0.2, 0.08, 0.07]))
     if t in ("int", "isub"):
         v = int(rng.choice([0, 1, -1, 2, -2, 3, -3, 5, -5, 4, 10 ** 6], p=[0.16, 0.1, 0.14, 0.1, 0.1, 0.1, 0.1, 0.05, 0.05, 0.08, 0.02]))
+        if rng.random() < 0.04:
+            v = BIG_INTS[int(rng.integers(0, len(BIG_INTS)))]
     elif t == "bool":
         v = bool(rng.integers(0, 2))
     else:
@@ -269,6 +294,18 @@ def n_consts(t):
     return sum(n_consts(c) for c in t[1:])
 
 
+def consts_of(t):
+    """the ["const", type, value] nodes of a tree"""
+    if t[0] == "const":
+        return [tuple(t)]
+    if t[0] in ("leaf", "junk", "var"):
+        return []
+    out = []
+    for c in t[1:]:
+        out += consts_of(c)
+    return out
+
+
 def leaves_of(t):
     if t[0] == "leaf":
         return {t[1]}
@@ -293,17 +330,39 @@ def must_reject(t):
     return t[0] == "mul" and contains_leaf(kids[0]) and contains_leaf(kids[1])
 
 
-def show(t, names):
+def show(t, names, iops=None, path=()):
+    """the expression; a node built with the augmented-assignment form is written with  += / -= / *= """
     k = t[0]
     if k == "leaf":
         return names[t[1]]
+    if k == "var":
+        return "v%d" % t[1]
     if k == "const":
         return {"int": "%d", "bool": "%s", "f64": "np.float64(%r)", "float": "%r", "fsub": "FSub(%r)", "isub": "ISub(%d)"}[t[1]] % (t[2],)
     if k == "junk":
         return repr(junk_of(t))
     if k == "neg":
-        return "-(" + show(t[1], names) + ")"
-    return "(" + show(t[1], names) + " " + SYM[k] + " " + show(t[2], names) + ")"
+        return "-(" + show(t[1], names, iops, path + (1,)) + ")"
+    sym = SYM[k] + ("=" if iops and path in iops else "")
+    return "(" + show(t[1], names, iops, path + (1,)) + " " + sym + " " + show(t[2], names, iops, path + (2,)) + ")"
+
+
+def binary_paths(t, path=()):
+    """paths of the binary operator nodes whose left operand is not a non-numeric value"""
+    if t[0] in ("leaf", "const", "junk", "var"):
+        return []
+    if t[0] == "neg":
+        return binary_paths(t[1], path + (1,))
+    here = [path] if t[1][0] != "junk" else []
+    return here + binary_paths(t[1], path + (1,)) + binary_paths(t[2], path + (2,))
+
+
+def choose_iops(rng, t, p=0.25):
+    return sorted(q for q in binary_paths(t) if rng.random() < p)
+
+
+def as_iops(x):
+    return frozenset(tuple(int(i) for i in q) for q in (x or []))
 
 
 def enc_tree(t):
@@ -319,7 +378,7 @@ def enc_tree(t):
     return [{"add": 4, "sub": 5, "mul": 6}[k], enc_tree(t[1]), enc_tree(t[2])]
 
 
-def real_eval(t, leaves, env=None, keep=None):
+def real_eval(t, leaves, env=None, keep=None, iops=None, path=()):
     """bottom-up evaluation with the real Python operators on the real objects (left operand first).
     ["var", j] is the OBJECT built earlier for definition j (shared sub-object).  When `keep` is a list, every
     intermediate result (sub-tree, object) of an operator node is appended to it, so that the sub-objects can be
@@ -334,11 +393,14 @@ def real_eval(t, leaves, env=None, keep=None):
     if k == "junk":
         return junk_of(t)
     if k == "neg":
-        r = operator.neg(real_eval(t[1], leaves, env, keep))
+        r = operator.neg(real_eval(t[1], leaves, env, keep, iops, path + (1,)))
     else:
-        a = real_eval(t[1], leaves, env, keep)
-        b = real_eval(t[2], leaves, env, keep)
-        r = OPS[k](a, b)
+        a = real_eval(t[1], leaves, env, keep, iops, path + (1,))
+        b = real_eval(t[2], leaves, env, keep, iops, path + (2,))
+        if iops and path in iops:
+            r = IOPS[k](a, b)          # a += b / a -= b / a *= b  (the value of the augmented assignment)
+        else:
+            r = OPS[k](a, b)
     if keep is not None:
         keep.append((t, r))
     return r
@@ -433,7 +495,11 @@ def make_state(sub, kind, nv, nh, na):
     return gen.make_dm(sub, nv, nh, na)[0]
 
 
-def make_group(ctx, gkey):
+LEAF_SPECS_SAME_NAME = [("Z", False), ("Z", True), ("SWAP", [0]), ("SWAP", [1]), ("X", False), ("X", True)]
+# ^ pairs of DIFFERENT observables that carry the same .name ("SigmaZ", "SWAP", "SigmaX")
+
+
+def make_group(ctx, gkey, forced=None):
     """state + batch + leaf observables + the leaves' own apply values, all determined by gkey;
     plus a second state (same type and sizes, other parameters) and a second batch of another length"""
     import torch
@@ -443,6 +509,8 @@ def make_group(ctx, gkey):
     torch.manual_seed(int(rng.integers(0, 2 ** 31 - 1)))
     kind = str(rng.choice(["positive", "complex", "dm"]))
     nv = int(rng.integers(2, 5))
+    if forced is not None:
+        nv = max(nv, 3)
     nh = int(rng.integers(1, 4))
     na = int(rng.integers(1, 3))
     state = make_state(sub, kind, nv, nh, na)
@@ -451,7 +519,14 @@ def make_group(ctx, gkey):
     samples = torch.tensor(rng.integers(0, 2, size=(n, nv)), dtype=torch.double)
     nleaf = int(rng.integers(2, 6))
     leaves, names = [], []
-    for _ in range(nleaf):
+    for w, arg in (forced or []):
+        if w in ("X", "Y", "Z"):
+            leaves.append({"X": SigmaX, "Y": SigmaY, "Z": SigmaZ}[w](absolute=bool(arg)))
+            names.append("Sigma%s(%s)" % (w, "abs" if arg else ""))
+        else:
+            leaves.append(SWAP(list(arg)))
+            names.append("SWAP(%s)" % (list(arg),))
+    for _ in range(0 if forced is not None else nleaf):
         w = str(rng.choice(["X", "Y", "Z", "NN", "SWAP"], p=[0.25, 0.15, 0.2, 0.2, 0.2]))
         if w in ("X", "Y", "Z"):
             ab = bool(rng.random() < 0.2)
@@ -517,7 +592,7 @@ def eval_on(ctx, obj, tree, case, state, samples, vals, label, with_model=True, 
     ref, mag = interp(tree, vals)
     ref = np.broadcast_to(np.asarray(ref, dtype=float), (n,)).copy()
     scale = float(max(1.0, np.max(mag)))
-    if not np.all(np.isfinite(ref)) or scale > 1e12:
+    if not np.all(np.isfinite(ref)) or scale > 1e150:
         ctx.count("skipped_overflow")
         return False
     ctx.count("evaluated_on:" + label)
@@ -563,7 +638,7 @@ def eval_on(ctx, obj, tree, case, state, samples, vals, label, with_model=True, 
 
 
 # ------------------------------------------------------------------------------------ one case
-def run_tree(ctx, g, gkey, tkey, stream, maxd, tree=None, extra=None, alt_index=None):
+def run_tree(ctx, g, gkey, tkey, stream, maxd, tree=None, extra=None, alt_index=None, iops=None):
     """build the tree with real operators, compare with the oracle and with the model.
     Returns (tree, obj, case) for an accepted composite (so the group can evaluate it again later), else None."""
     from qucumber.observables.observable import ObservableBase
@@ -581,9 +656,19 @@ def run_tree(ctx, g, gkey, tkey, stream, maxd, tree=None, extra=None, alt_index=
             info["defect_depth"] = dpos
         else:
             tree = gen_random(rng, d, nleaf)
-    expr = show(tree, g["names"])
+        if iops is None:
+            # one tree in three has some of its binary nodes built with the augmented-assignment form
+            irng = np.random.Generator(np.random.PCG64(tuple(tkey) + (77,)))
+            iops = choose_iops(irng, tree, p=0.35) if irng.random() < 0.34 else []
+    iops = as_iops(iops)
+    expr = show(tree, g["names"], iops)
     case = {"stream": stream, "gkey": list(gkey), "tkey": list(tkey), "maxd": maxd, "state": g["kind"], "nv": g["nv"],
-            "n": g["n"], "leaves": g["names"], "expr": expr, "tree": tree, **info}
+            "n": g["n"], "leaves": g["names"], "expr": expr, "tree": tree, "iops": sorted(list(q) for q in iops), **info}
+    if iops:
+        ctx.count("trees with in-place operator forms (+=, -=, *=)")
+        ctx.count("in-place operator nodes", len(iops))
+    if any(t2 == "const" and isinstance(v2, int) and abs(v2) >= 2 ** 63 for (t2, _, v2) in consts_of(tree)):
+        ctx.count("trees with an int scalar beyond 64 bits")
     want_reject = must_reject(tree)
     vary = any(np.ptp(g["vals"][i]) > 0 for i in leaves_of(tree))
     if want_reject:
@@ -601,7 +686,7 @@ def run_tree(ctx, g, gkey, tkey, stream, maxd, tree=None, extra=None, alt_index=
     # (the property does not name an exception class; the class only goes into the histogram)
     subobjs = []
     try:
-        obj = real_eval(tree, g["leaves"], keep=subobjs)
+        obj = real_eval(tree, g["leaves"], keep=subobjs, iops=iops)
         if isinstance(obj, ObservableBase):
             status = "obs"
         elif isinstance(obj, (int, float)):
@@ -736,37 +821,34 @@ def gen_dag(rng, maxd, nleaf):
     return defs
 
 
-def show_dag(defs, names):
-    nm = list(names)
-
-    def sh(t):
-        if t[0] == "var":
-            return "v%d" % t[1]
-        if t[0] in ("leaf", "const", "junk"):
-            return show(t, nm)
-        if t[0] == "neg":
-            return "-(" + sh(t[1]) + ")"
-        return "(" + sh(t[1]) + " " + SYM[t[0]] + " " + sh(t[2]) + ")"
-    return "; ".join("v%d = %s" % (j, sh(t)) for j, t in enumerate(defs))
+def show_dag(defs, names, dag_iops=None):
+    dag_iops = dag_iops or {}
+    return "; ".join("v%d = %s" % (j, show(t, list(names), as_iops(dag_iops.get(str(j))))) for j, t in enumerate(defs))
 
 
-def run_dag(ctx, g, gkey, tkey, maxd, defs=None, extra=None):
+def run_dag(ctx, g, gkey, tkey, maxd, defs=None, extra=None, dag_iops=None):
     """several composites that SHARE sub-objects, built in order with the real operators; afterwards every definition's
     object and every operand object is evaluated against its own (expanded) expression.  Returns the kept composites."""
     from qucumber.observables.observable import ObservableBase
     rng = np.random.Generator(np.random.PCG64(tkey))
     if defs is None:
         defs = gen_dag(rng, maxd, len(g["leaves"]))
-    expr = show_dag(defs, g["names"])
+        if dag_iops is None:
+            irng = np.random.Generator(np.random.PCG64(tuple(tkey) + (77,)))
+            dag_iops = {str(j): choose_iops(irng, t, p=0.4) for j, t in enumerate(defs)} if irng.random() < 0.5 else {}
+    dag_iops = {str(j): sorted(list(q) for q in as_iops(v)) for j, v in (dag_iops or {}).items() if v}
+    expr = show_dag(defs, g["names"], dag_iops)
     case = {"stream": "dag", "mode": "dag", "gkey": list(gkey), "tkey": list(tkey), "maxd": maxd, "state": g["kind"],
-            "nv": g["nv"], "n": g["n"], "leaves": g["names"], "expr": expr, "dag": defs, **(extra or {})}
+            "nv": g["nv"], "n": g["n"], "leaves": g["names"], "expr": expr, "dag": defs, "dag_iops": dag_iops, **(extra or {})}
+    if dag_iops:
+        ctx.count("shared-object programs with in-place operator forms")
     ctx.case({"expr": expr, "state": g["kind"], "nv": g["nv"], "n": g["n"]}, nontrivial=True)
     ctx.count("stream:dag")
     env, subobjs = [], []
     for j, t in enumerate(defs):
         te = expand(t, defs)
         try:
-            o = real_eval(t, g["leaves"], env=env, keep=subobjs)
+            o = real_eval(t, g["leaves"], env=env, keep=subobjs, iops=as_iops(dag_iops.get(str(j))))
             status = "obs" if isinstance(o, ObservableBase) else "other:" + type(o).__name__
         except Exception as e:
             o, status = None, "rejected"
@@ -899,7 +981,7 @@ def sampling_case(ctx, g, tree, obj, case, skey):
     ref, mag = interp(tree, vals)
     ref = np.broadcast_to(np.asarray(ref, dtype=float), (n,)).copy()
     scale = float(max(1.0, np.max(mag)))
-    if not np.all(np.isfinite(ref)) or scale > 1e12:
+    if not np.all(np.isfinite(ref)) or scale > 1e150:
         ctx.count("skipped_overflow")
         return
     if form == "sample":
@@ -1013,6 +1095,195 @@ FIXED = [  # the forms named in the property / design, always run (leaf 0 = a, l
 ]
 
 
+def C(t, v):
+    return ["const", t, v]
+
+
+L0, L1 = ["leaf", 0], ["leaf", 1]
+FIXED_INPLACE = [   # (tree, paths of the nodes written as augmented assignments);  a = leaf 0, b = leaf 1
+    (["sub", L0, L1], [[]]), (["sub", L0, C("int", 3)], [[]]), (["sub", L0, C("float", 1.5)], [[]]), (["add", L0, L1], [[]]),
+    (["add", L0, C("float", 0.5)], [[]]), (["add", L0, C("int", 0)], [[]]), (["mul", L0, C("int", 2)], [[]]),
+    (["mul", L0, C("float", -0.5)], [[]]), (["mul", L1, C("f64", 2.5)], [[]]), (["sub", L1, C("f64", 0.75)], [[]]),
+    # a scalar variable extended by an observable:  c = 3; c -= a   (Python falls back to a.__rsub__)
+    (["sub", C("int", 3), L0], [[]]), (["add", C("float", 1.5), L0], [[]]), (["mul", C("int", 2), L1], [[]]),
+    (["sub", C("f64", 2.0), L1], [[]]),
+    # H = -b; H -= 3 * a; H += 1; H *= 2      and      G = 2 * a; G -= 1.5
+    (["mul", ["add", ["sub", ["neg", L1], ["mul", C("int", 3), L0]], C("int", 1)], C("int", 2)], [[], [1], [1, 1]]),
+    (["sub", ["mul", C("int", 2), L0], C("float", 1.5)], [[]]),
+    (["sub", ["sub", ["sub", L0, L1], C("int", 1)], ["mul", C("float", 0.5), L1]], [[], [1], [1, 1]]),
+    (["add", ["sub", L0, L1], ["sub", L1, C("int", 2)]], [[], [2]]),
+    (["sub", ["neg", L0], ["neg", L1]], [[]]),
+    (["mul", ["sub", L0, L1], C("int", -3)], [[], [1]]),
+    # the left operand is itself a composite (it is re-evaluated afterwards: an in-place form must not change the OBJECT
+    # it extends, other composites may share it)
+    (["mul", ["mul", C("int", 2), L0], C("int", 3)], [[]]), (["mul", ["neg", L1], C("float", 2.5)], [[]]),
+    (["add", ["add", L0, C("int", 1)], L1], [[]]), (["sub", ["mul", L0, C("float", 0.5)], C("int", 1)], [[]]),
+    (["mul", ["sub", L0, C("int", 1)], C("int", 2)], [[]]), (["add", ["mul", C("int", 2), L0], ["mul", C("int", 3), L1]], [[]]),
+    # in-place forms of the rejected constructions
+    (["mul", L0, L1], [[]]), (["mul", L0, L0], [[]]), (["add", L0, ["junk", "str", 0]], [[]]), (["sub", L0, ["junk", "none", 0]], [[]]),
+    (["mul", L0, ["junk", "str", 1]], [[]]), (["sub", L0, ["junk", "list", 0]], [[]]), (["mul", L0, ["junk", "complex", 0]], [[]]),
+    (["sub", ["sub", L0, C("int", 1)], ["mul", L0, L1]], [[], [2]]),
+]
+FIXED_BIG = [    # Python ints beyond 64 bits (and their float neighbours) as factors and addends, either side
+    ["mul", C("int", 10 ** 20), L0], ["mul", L0, C("int", -10 ** 30)], ["mul", C("int", 2 ** 63), L1], ["mul", L1, C("int", -2 ** 63 - 1)],
+    ["mul", C("isub", 2 ** 64 + 1), L0], ["add", L0, C("int", 10 ** 20)], ["sub", C("int", 10 ** 20), L0], ["sub", L0, C("int", -10 ** 30)],
+    ["neg", ["mul", C("int", 10 ** 20), L0]], ["sub", ["mul", C("int", 10 ** 20), L0], ["mul", C("int", 10 ** 20), L1]],
+    ["mul", C("int", 3), ["mul", C("int", 10 ** 19), L0]], ["mul", ["mul", C("int", 10 ** 10), C("int", 10 ** 10)], L0],
+    ["mul", C("float", 1e20), L0], ["mul", L0, C("f64", -1e30)], ["add", ["mul", C("int", 10 ** 38), L0], L1],
+]
+FIXED_DAGS_INPLACE = [   # (definitions, {definition index: in-place paths})
+    # H = -b; H -= 3 * a; H += 1; H *= 2   (every intermediate H is a definition: all must keep their own value)
+    ([["neg", L1], ["sub", ["var", 0], ["mul", C("int", 3), L0]], ["add", ["var", 1], C("int", 1)], ["mul", ["var", 2], C("int", 2)]],
+     {"1": [[]], "2": [[]], "3": [[]]}),
+    # G = 2 * a; K = G; G -= 1.5; K += b; M = G - K
+    ([["mul", C("int", 2), L0], ["sub", ["var", 0], C("float", 1.5)], ["add", ["var", 0], L1], ["sub", ["var", 1], ["var", 2]]],
+     {"1": [[]], "2": [[]]}),
+    # p = 2 * a; q = p; q *= 3; r = p - 1; w = -p; w *= 2; x = q + p
+    ([["mul", C("int", 2), L0], ["mul", ["var", 0], C("int", 3)], ["sub", ["var", 0], C("int", 1)], ["mul", ["neg", ["var", 0]], C("int", 2)],
+      ["add", ["var", 1], ["var", 0]]], {"1": [[]], "3": [[]]}),
+    # s = a + 1; t = s; t -= b; u = s; u *= 2; w = s; w += s
+    ([["add", L0, C("int", 1)], ["sub", ["var", 0], L1], ["mul", ["var", 0], C("int", 2)], ["add", ["var", 0], ["var", 0]]],
+     {"1": [[]], "2": [[]], "3": [[]]}),
+]
+SYSTEM_TREES = [     # over LEAF_SPECS_SAME_NAME: Z, |Z|, SWAP[0], SWAP[1], X, |X|  (leaves 0..5)
+    ["add", ["mul", C("int", 2), ["leaf", 0]], C("int", 1)], ["mul", C("int", 3), ["leaf", 1]], ["sub", ["leaf", 2], C("int", 1)],
+    ["mul", C("float", 0.5), ["leaf", 3]], ["sub", ["leaf", 4], ["leaf", 5]], ["add", ["leaf", 0], ["leaf", 1]],
+    ["sub", ["mul", C("int", 2), ["leaf", 2]], ["leaf", 3]], ["neg", ["leaf", 5]], ["add", ["leaf", 1], ["mul", C("float", -1.5), ["leaf", 0]]],
+    ["sub", ["add", ["leaf", 0], ["leaf", 4]], ["add", ["leaf", 1], ["leaf", 5]]],
+]
+
+
+def distinct_values(g, i, j):
+    return not np.array_equal(g["vals"][i], g["vals"][j])
+
+
+def system_pass(ctx, g, kept, gkey, sampling=True):
+    """the library's container for several observables: System(*composites) must report for every composite the statistics
+    of ITS combined per-sample value (statistics_from_samples on the group's batch and on another one; statistics(...) on
+    the recorded chains).  Composites whose .name collides with an earlier one are left out (a System is keyed by name)."""
+    import torch
+    from qucumber.observables import System
+    rng = np.random.Generator(np.random.PCG64(tuple(gkey) + (555,)))
+    picked, names = [], set()
+    order = [int(i) for i in rng.permutation(len(kept))]
+    for i in order:
+        tree, obj, case = kept[i]
+        if case.get("mode") == "dag" and "definition" not in case:
+            continue
+        try:
+            nm = obj.name
+        except Exception:
+            continue
+        if nm in names:
+            ctx.count("system: composite left out (same .name as another one)")
+            continue
+        ref, mag = interp(tree, g["vals"])
+        if not np.all(np.isfinite(ref)) or float(np.max(mag)) > 1e150:
+            continue
+        names.add(nm)
+        picked.append((tree, obj, case))
+        if len(picked) >= 6:
+            break
+    if not picked:
+        return
+    lv = set()
+    for tree, _, _ in picked:
+        lv |= leaves_of(tree)
+    lnames = {}
+    for i in lv:
+        lnames.setdefault(getattr(g["leaves"][i], "name", None), []).append(i)
+    clash = any(len(v) > 1 and any(distinct_values(g, v[0], j) for j in v[1:]) for v in lnames.values())
+    ctx.count("system: leaves of the same .name with different values in one System" if clash else "system: leaf names distinct")
+    base = {"stream": "system", "mode": "system", "gkey": list(gkey), "state": g["kind"], "nv": g["nv"], "n": g["n"],
+            "leaves": g["names"], "composites": [c.get("def_expr") or c.get("expr") for _, _, c in picked],
+            "group": picked[0][2].get("group")}
+    ctx.case({"system": base["composites"], "state": g["kind"], "nv": g["nv"], "n": g["n"]}, nontrivial=len(picked) >= 2)
+    ctx.count("stream:system")
+    ok, sysobj = ctx.call("System(*composites)", base, lambda: System(*[o for _, o, _ in picked]))
+    if not ok:
+        return
+    for label, state, samples, vals in [("state1,batch1", g["state"], g["samples"], g["vals"])] + \
+            [(a["label"], a["state"], a["samples"], a["vals"]) for a in g["alts"][1:2]]:
+        if int(samples.shape[0]) < 2:
+            continue
+        case = dict(base, evaluated_on=label)
+        ok, res = ctx.call("System.statistics_from_samples", case, lambda: sysobj.statistics_from_samples(state, samples.clone()))
+        if not ok:
+            continue
+        for tree, obj, c in picked:
+            ref, mag = interp(tree, vals)
+            ref = np.broadcast_to(np.asarray(ref, dtype=float), (int(samples.shape[0]),)).copy()
+            scale = float(max(1.0, np.max(mag)))
+            st = res.get(obj.name) if isinstance(res, dict) else None
+            good, want = stats_ok(st, ref, scale)
+            ctx.require("System reports for a composite the statistics of its combined per-sample value", good,
+                        dict(case, composite=c.get("def_expr") or c.get("expr"), tree=tree, iops=c.get("iops", [])),
+                        {"impl": {k: float(v) for k, v in st.items()} if isinstance(st, dict) else repr(st), "one_pass": want})
+    if not sampling:
+        ctx.traces += 1
+        return
+    num_samples = int(rng.integers(4, 11))
+    num_chains = int(rng.choice([0, 2, 3, 4]))
+    burn_in, steps = int(rng.integers(0, 3)), int(rng.integers(1, 3))
+    case = dict(base, form="System.statistics", num_samples=num_samples, num_chains=num_chains, burn_in=burn_in, steps=steps)
+    torch.manual_seed(int(rng.integers(0, 2 ** 31 - 1)))
+    state = g["state"]
+    with RecordingSampler(state) as rec:
+        ok, res = ctx.call("System.statistics with composites", case,
+                           lambda: sysobj.statistics(state, num_samples, num_chains=num_chains, burn_in=burn_in, steps=steps))
+    if not ok or not rec.log:
+        return
+    chunks = [leaf_values(g["leaves"], state, b) for b in rec.log]
+    for skip in (0, 1):         # a leading sample() call may only initialise the chains (see sampling_case)
+        if skip and len(chunks) < 2:
+            break
+        vals = [np.concatenate([c[i] for c in chunks[skip:]]) for i in range(len(g["leaves"]))]
+        allgood, bad = True, None
+        for tree, obj, c in picked:
+            ref, mag = interp(tree, vals)
+            ref = np.broadcast_to(np.asarray(ref, dtype=float), (len(vals[0]),)).copy()
+            scale = float(max(1.0, np.max(mag)))
+            if not np.all(np.isfinite(ref)):
+                continue
+            st = res.get(obj.name) if isinstance(res, dict) else None
+            good, want = stats_ok(st, ref, scale)
+            if not good:
+                allgood = False
+                bad = bad or (tree, c, st, want)
+        if allgood:
+            break
+    if not allgood:
+        tree, c, st, want = bad
+        ctx.require("System.statistics(...) reports for a composite the one-pass statistics of its combined per-sample values", False,
+                    dict(case, composite=c.get("def_expr") or c.get("expr"), tree=tree),
+                    {"impl": {k: float(v) for k, v in st.items()} if isinstance(st, dict) else repr(st), "one_pass": want,
+                     "draws": [int(b.shape[0]) for b in rec.log]})
+    ctx.traces += 1
+
+
+def run_system_group(ctx, gkey, P):
+    """fixed: composites over pairs of different leaves that carry the same .name, evaluated alone and through a System"""
+    gkey = tuple(gkey)
+    g = make_group(ctx, gkey, forced=LEAF_SPECS_SAME_NAME)
+    if not finite_group(g):
+        ctx.count("skipped_nonfinite_leaf")
+        return
+    for i, j in ((0, 1), (2, 3), (4, 5)):
+        ctx.count("system group: same-name leaves %s" % ("differ on the batch" if distinct_values(g, i, j) else "coincide on the batch"))
+    grp = {"gkey": list(gkey), "P": P, "system_group": True}
+    kept = []
+    for t, tree in enumerate(SYSTEM_TREES):
+        k = run_tree(ctx, g, gkey, gkey + (t,), "fixed-system", P["maxd"], tree=tree, extra={"group": grp})
+        if k:
+            kept.append(k)
+    for a in range(0, len(kept), 5):
+        system_pass(ctx, g, kept[a:a + 6], gkey + (a,))
+    # one System holding a single composite that contains both same-name leaves
+    for k in kept:
+        if leaves_of(k[0]) >= {0, 1}:
+            system_pass(ctx, g, [k], gkey + (99,), sampling=False)
+
+
 def run_group(ctx, gkey, P, fixed=None, ctor=False):
     """one group: build all trees, evaluate each accepted composite on two (state, batch) pairs, then the
     in-place perturbation pass over all of them, then statistics(...) / sample(...) on a few"""
@@ -1034,8 +1305,21 @@ def run_group(ctx, gkey, P, fixed=None, ctor=False):
             if k:
                 kept.append(k)
             t += 1
+        for tree, iops in FIXED_INPLACE:
+            k = run_tree(ctx, g, gkey, gkey + (t,), "fixed-inplace", P["maxd"], tree=tree, extra={"group": grp}, iops=iops)
+            if k:
+                kept.append(k)
+            t += 1
+        for tree in FIXED_BIG:
+            k = run_tree(ctx, g, gkey, gkey + (t,), "fixed-bigint", P["maxd"], tree=tree, extra={"group": grp})
+            if k:
+                kept.append(k)
+            t += 1
         for defs in FIXED_DAGS:
             kept += run_dag(ctx, g, gkey, gkey + (t,), P["maxd"], defs=defs, extra={"group": grp})
+            t += 1
+        for defs, di in FIXED_DAGS_INPLACE:
+            kept += run_dag(ctx, g, gkey, gkey + (t,), P["maxd"], defs=defs, extra={"group": grp}, dag_iops=di)
             t += 1
     else:
         for stream, cnt in (("linear", P["lin"]), ("defect", P["defect"]), ("random", P["rand"])):
@@ -1057,6 +1341,7 @@ def run_group(ctx, gkey, P, fixed=None, ctor=False):
     cand = sorted(kept, key=lambda k: -min(n_ops(k[0]), 3))[:P.get("sampling", 2)]
     for j, (tree, obj, case) in enumerate(cand):
         sampling_case(ctx, g, tree, obj, case, gkey + (900 + j,))
+    system_pass(ctx, g, kept, gkey, sampling=(fixed is not None or int(gkey[-1]) % 4 == 0))
     if ctor:
         direct_ctor_cases(ctx, g, gkey)
 
@@ -1064,6 +1349,8 @@ def run_group(ctx, gkey, P, fixed=None, ctor=False):
 def run(ctx):
     P = plan(ctx)
     run_group(ctx, (ctx.seed, 16, 7, 0), P, fixed=FIXED, ctor=True)
+    for j in range(2):
+        run_system_group(ctx, (ctx.seed, 16, 8, j), P)
     for gi in range(P["groups"]):
         run_group(ctx, (ctx.seed, 16, 0, gi), P, ctor=(gi % 20 == 10))
 
@@ -1086,7 +1373,8 @@ def shrink(ctx, rec):
     """replace the failing tree by its smallest failing sub-tree / simplification (same group).  Only for failures
     of the plain per-tree evaluation; perturbed / sampling failures are replayed through their whole group."""
     case = rec.get("case", {})
-    if "tree" not in case or "gkey" not in case or case.get("mode") in ("perturbed", "sampling", "dag", "subobject"):
+    if "tree" not in case or "gkey" not in case or case.get("mode") in ("perturbed", "sampling", "dag", "subobject", "system") \
+            or case.get("iops") or (case.get("group") or {}).get("system_group"):
         return rec
     gkey = tuple(case["gkey"])
     g = make_group(ctx, gkey)
@@ -1129,12 +1417,17 @@ def replay(ctx, rec):
         gkey = tuple(case["gkey"])
         g = make_group(ctx, gkey)
         print("replay of shared-object program", case.get("expr"), "on", case.get("state"), "nv", case.get("nv"), "n", case.get("n"))
-        kept = run_dag(ctx, g, gkey, tuple(case.get("tkey", gkey)), case.get("maxd", 4), defs=case["dag"])
+        kept = run_dag(ctx, g, gkey, tuple(case.get("tkey", gkey)), case.get("maxd", 4), defs=case["dag"],
+                       dag_iops=case.get("dag_iops") or {})
         if case.get("perturb_seed") is not None:
             perturbed_pass(ctx, g, kept)
         return
-    if case.get("mode") in ("perturbed", "sampling", "leaf_after") and grp:
-        print("replay of group", grp["gkey"], "(", case.get("mode"), "failure of", case.get("expr"), ")")
+    if grp and grp.get("system_group"):
+        print("replay of the same-name-leaves System group", grp["gkey"])
+        run_system_group(ctx, tuple(grp["gkey"]), grp["P"])
+        return
+    if case.get("mode") in ("perturbed", "sampling", "leaf_after", "system") and grp:
+        print("replay of group", grp["gkey"], "(", case.get("mode"), "failure of", case.get("expr") or case.get("composite"), ")")
         run_group(ctx, tuple(grp["gkey"]), grp["P"], fixed=FIXED if grp.get("fixed") else None, ctor=False)
         return
     if case.get("stream") in ("ctor", "leaf") or "tree" not in case:
@@ -1145,4 +1438,5 @@ def replay(ctx, rec):
     gkey = tuple(case["gkey"])
     g = make_group(ctx, gkey)
     print("replay of", case.get("expr"), "on", case.get("state"), "nv", case.get("nv"), "n", case.get("n"))
-    run_tree(ctx, g, gkey, tuple(case.get("tkey", gkey)), case.get("stream", "replay"), case.get("maxd", 4), tree=case["tree"])
+    run_tree(ctx, g, gkey, tuple(case.get("tkey", gkey)), case.get("stream", "replay"), case.get("maxd", 4), tree=case["tree"],
+             iops=case.get("iops") or [])
